@@ -5,6 +5,11 @@ ROOT = os.path.dirname(os.path.dirname(os.path.abspath(__file__)))
 BASE_OFF = "cd /repo && env -u BUIDL_VERIF_TRACE /venv/bin/python -m pytest -ra -q -p no:cacheprovider --timeout=900 --continue-on-collection-errors"
 
 CLAIMED = {
+ "C18": dict(
+   text="TLC model-checks the compact-filter object (build, serialise, parse, query) over a toy universe whose hash has collisions: deriving F from the number of distinct hash values is refuted, deriving it from the element count satisfies NoFalseNegative; Golomb-Rice and bit-packing laws are checked over ranges. SipHash-2-4 and MurmurHash3 are transcribed into TLA+ and TLC evaluates them on every message length 0..70 and long elements with random keys / boundary seeds against the library; TLC rebuilds GCS encodings (range mapping, sort, deltas, Golomb-Rice P=19, packing) from the validated hashes, and decides membership (incl. sets constructed to contain a range collision), bloom bit positions, bit field bytes and the filterload payload.",
+   design="3/C18",
+   note="Trusted: TLC, Filters.tla (transcriptions of SipHash-2-4, MurmurHash3, BIP158 GCS, BIP37). Element sets, keys and seeds are sampled; filter header chaining is decided in C19's cfheaders cases.",
+   technique="TLA+ transcription of the hash/encoding algorithms evaluated by TLC on recorded calls + TLC model checking of the filter object"),
  "C17": dict(
    text="With free-constructor hashes TLC checks, for every block size up to a bound and every subset of matched transactions, that the BIP37 proof built by the specification's prover validates in the verifier walk (written like MerkleTree.populate_tree) and yields exactly the matched ids in order, and explores an adversary submitting arbitrary flags/hashes from the tree's node hashes plus a foreign value: whenever the proof validates against the true root only leaves are proved. Every exported proof is concretised with hashlib and replayed through MerkleBlock.parse/is_valid/proved_txs; merkle roots, every single-bit alteration of hashes/flags/count/root and dropped/extra hashes of sampled proofs (trees up to 5000 leaves), compact bits <-> target, proof-of-work, retargeting across the clamps and header chains are decided by TLC.",
    design="3/C17",
